@@ -34,7 +34,8 @@ ID="$1"; shift
 
 if [ "$ID" = "setup" ]; then
   build_harness release dbgchk || exit 2
-  if [ -x "$VERIF_DIR/fuzz/build.sh" ]; then "$VERIF_DIR/fuzz/build.sh" || exit 2; fi
+  "$VERIF_DIR/fuzz/build.sh" asan || exit 2
+  "$VERIF_DIR/fuzz/build.sh" asanrel || exit 2
   "$CARGO_TARGET_DIR/release/mlv" selftest || exit 2
   exit 0
 fi
@@ -47,6 +48,9 @@ export MLV_FUZZ_DIR="$VERIF_DIR/fuzz"
 export MLV_BUILD_DIR="$BUILD"
 
 if [ "${1:-}" = "--replay" ]; then
+  case "${2:-}" in
+    *.bin) exec "$VERIF_DIR/fuzz/replay.sh" "$ID" "$2" ;;
+  esac
   exec "$CARGO_TARGET_DIR/release/mlv" "$ID" --replay "$2"
 fi
 TIER="${1:-${VERIF_TIER:-quick}}"
